@@ -228,6 +228,8 @@ func (s *Spec) Encode() string {
 		"nin=" + listS(s.NIn),
 		"flat=" + b01(s.Flat),
 		"lr=" + s.LR.wireToken(),
+		// measured on the real compiler at start-up: does `? type` give the compiled field presence?
+		"optpres=" + b01(optPresFact()),
 	}
 	return strings.Join(kv, " ")
 }
